@@ -260,7 +260,7 @@ func genOverflow(r *hxlib.Run) hxlib.Case {
 	rng := r.Rng
 	var l []string
 	l = append(l, "db hashmap 0", "q 0 - T", fmt.Sprintf("q 1 a %s", genCond(rng, 1, false)), "sub 0 LI 0", "sub 1 L 1")
-	extra := 1 + rng.Intn(6)
+	extra := rng.Intn(8) - 1 // 999 … 1006 undrained writes: both sides of the buffer boundary
 	for i := 0; i < feedCapStatement+extra; i++ {
 		if rng.Intn(10) == 0 {
 			l = append(l, fmt.Sprintf("push %s %d %s %s", pick(rng, genKeys), i%10, pick(rng, genStrs), pick(rng, []string{"-", "s"})))
@@ -338,7 +338,7 @@ func gen(r *hxlib.Run, emit func(hxlib.Case)) {
 			emit(genMalformed(r))
 		}
 	}
-	for i, n := 0, r.Budget(3, 30); i < n; i++ {
+	for i, n := 0, r.Budget(4, 40); i < n; i++ {
 		emit(genOverflow(r))
 	}
 	for i, n := 0, r.Budget(40, 400); i < n; i++ {
